@@ -43,11 +43,20 @@ def load(symbolic=True):
     ts = pysym.load_by_path('mujoco.sysid._src.timeseries', os.path.join(base, 'timeseries.py'))
     sys.modules['mujoco.sysid._src'].timeseries = ts
     sm = pysym.load_by_path('mujoco.sysid._src.signal_modifier', os.path.join(base, 'signal_modifier.py'))
+    sys.modules['mujoco.sysid._src'].signal_modifier = sm
     if symbolic:
         shim_interp = types.SimpleNamespace(interpolate=types.SimpleNamespace(interp1d=pysym.LinInterp))
         ts.scipy = shim_interp
         sm.np = pysym.NpShim(); 
+    global _last_base; _last_base = base
     return ts, sm, Parameter
+
+
+def load_transform(symbolic=True):
+    tsm, sm, Parameter = load(symbolic)
+    st = pysym.load_by_path('mujoco.sysid._src.signal_transform', os.path.join(_last_base, 'signal_transform.py'))
+    if symbolic: st.np = pysym.NpShim()
+    return tsm, sm, st, Parameter
 
 
 def mapping(ts_mod, D):
@@ -154,6 +163,52 @@ def unit_grouping(tier, T, D, delays):
     return ck
 
 
+TRANSFORMS = {   # registered (kind, pattern, target) lists
+    'gain_pred': [('gain', 'b', 'predicted')], 'bias_pred': [('bias', 'b', 'predicted')], 'bias_both': [('bias', '*', 'both')], 'gain_bias': [('gain', 'a', 'both'), ('bias', 'b', 'measured')],
+    'bias_then_gain_other': [('bias', 'a', 'measured'), ('gain', 'b', 'predicted')], 'none': [], 'two_bias': [('bias', 'a', 'predicted'), ('bias', '*', 'predicted')]}
+
+
+def unit_transform(tier, T, D, cfg):
+    """SignalTransform._apply_gains_biases: pure in its input, equal to the column-wise reference"""
+    ck = Checker('transform_T%d_D%d_%s' % (T, D, cfg), tier, timeout_s=60, semantics='real')
+    tsm, sm, stm, Parameter = load_transform(symbolic=True)
+    def build(mod_ts, mod_st, P, data, pvals):
+        tr = mod_st.SignalTransform(); params = {}
+        for n_, (kind, pat, target) in enumerate(TRANSFORMS[cfg]):
+            p_ = P(pvals[n_]); p_.name = 'p%d' % n_; params[p_.name] = p_
+            getattr(tr, kind)(pat, p_, target=target)
+        return tr, params, mod_ts.TimeSeries(times_for(T), data, mapping(mod_ts, D))
+    pv = [z3.Real('p%d' % i) for i in range(len(TRANSFORMS[cfg]))]
+    for target in ('predicted', 'measured'):
+        data = pysym.sym_array('x', (T, D)); orig = pysym.terms(data)
+        tr, params, ts = build(tsm, stm, Parameter, data, [S(v) for v in pv])
+        held = ts.data
+        out = tr._apply_gains_biases(ts, target, params)
+        def rp(model, witness, target=target):
+            tsc, smc, stc, Pc = load_transform(symbolic=False)
+            vals = np.array([[float(z3.simplify(model.eval(data[i, j].t, model_completion=True)).as_fraction()) for j in range(D)] for i in range(T)])
+            pvs = [float(z3.simplify(model.eval(v, model_completion=True)).as_fraction()) for v in pv]
+            if all(x == 0 for x in pvs): pvs = [1.5 + i for i in range(len(pvs))]       # a bias/gain of 0 or an all-zero model would hide a write
+            trc, prm, tsx = build(tsc, stc, Pc, vals.copy(), pvs)
+            before = tsx.data.copy()
+            o = trc._apply_gains_biases(tsx, target, prm)
+            ref = trc._apply_gains_biases_reference(tsc.TimeSeries(times_for(T), vals.copy(), mapping(tsc, D)), target, prm)
+            changed = not np.array_equal(before, tsx.data); differs_ = not np.array_equal(o.data, ref.data)
+            return (changed or differs_), {'input_changed_by_call': bool(changed), 'differs_from_reference': bool(differs_), 'data': vals.tolist(), 'params': pvs, 'target': target}
+        dec = lambda mdl: {'T': T, 'D': D, 'transform': TRANSFORMS[cfg], 'params': [str(mdl.eval(v, model_completion=True)) for v in pv]}
+        ck.prove('_apply_gains_biases(%s): the caller\'s ts.data holds its original terms after the call' % target, [], z3.Not(differs(orig, list(held.ravel()))), site='SignalTransform._apply_gains_biases:input-mutated', decode=dec, replay=rp)
+        data2 = pysym.sym_array('x', (T, D))
+        tr2, params2, ts2 = build(tsm, stm, Parameter, data2, [S(v) for v in pv])
+        ref = tr2._apply_gains_biases_reference(ts2, target, params2)
+        a_ = pysym.terms(out.data); b_ = pysym.terms(ref.data)
+        ck.prove('_apply_gains_biases(%s) equals applying apply_gain / apply_bias one by one, in every cell' % target, [], z3.And(*[x == y for x, y in zip(a_, b_)]) if len(a_) == len(b_) else z3.BoolVal(False),
+                 site='SignalTransform._apply_gains_biases:reference', decode=dec, replay=rp)
+        ck.prove('times and mapping are passed through', [], z3.BoolVal(bool(np.array_equal(out.times, times_for(T))) and out.signal_mapping is ts.signal_mapping), site='SignalTransform._apply_gains_biases:meta')
+    ck.functions |= {'SignalTransform._apply_gains_biases', 'SignalTransform._apply_gains_biases_reference', 'SignalTransform.gain', 'SignalTransform.bias', 'apply_gain', 'apply_bias', 'TimeSeries.get_indices'}
+    ck.reach('symbolic data unconstrained', [])
+    return ck
+
+
 def units(tier):
     u = []
     shapes = [(2, 1), (3, 2), (3, 3)] if tier == 'quick' else [(2, 1), (3, 2), (3, 3), (4, 3), (4, 4)]
@@ -168,4 +223,6 @@ def units(tier):
         if D >= 2:
             for ds in ([(0.0, 0.05, 0.05), (0.02, 0.02, 0.1), (0.0, 0.0, 0.0), (0.0, 0.01, 0.0100000004), (0.3, 0.1 + 0.2, 0.3)]):
                 u.append(('grouping_T%d_D%d_%s' % (T, D, '_'.join('%g' % d for d in ds)), 'unit_grouping', {'T': T, 'D': D, 'delays': ds}))
+    for T, D in ([(2, 2), (3, 3)] if tier == 'quick' else [(2, 2), (3, 3), (4, 4)]):
+        for cfg in TRANSFORMS: u.append(('transform_T%d_D%d_%s' % (T, D, cfg), 'unit_transform', {'T': T, 'D': D, 'cfg': cfg}))
     return u
